@@ -199,6 +199,8 @@ pub struct ConnRun {
     /// keep the popped `Request` objects alive (C12 inspects their files)
     pub keep: bool,
     pub kept: Vec<(usize, Request)>,
+    /// leave parsed requests queued inside the connection after a read (popped by `pop_some`)
+    pub defer_pop: bool,
 }
 
 pub fn panic_msg(e: Box<dyn std::any::Any + Send>) -> String {
@@ -218,7 +220,7 @@ impl ConnRun {
         if let Some(l) = limit {
             conn.set_payload_max_size(l);
         }
-        ConnRun { conn, ss, consumed: 0, steps: Vec::new(), drain, window: 0, keep: false, kept: Vec::new() }
+        ConnRun { conn, ss, consumed: 0, steps: Vec::new(), drain, window: 0, keep: false, kept: Vec::new(), defer_pop: false }
     }
 
     pub fn remaining(&self) -> usize {
@@ -290,7 +292,7 @@ impl ConnRun {
         }
         self.consumed += got;
         let mut reqs = Vec::new();
-        loop {
+        while !self.defer_pop {
             let p = catch_unwind(AssertUnwindSafe(|| self.conn.pop_parsed_request()));
             match p {
                 Ok(Some(r)) => {
@@ -306,6 +308,27 @@ impl ConnRun {
         let out = if self.drain { self.drain_out()? } else { Vec::new() };
         self.steps.push(Step { ev, iov_len, got, res, reqs, out, consumed_after: self.consumed, recv_calls });
         Ok(self.steps.last().unwrap())
+    }
+}
+
+impl ConnRun {
+    /// Pop up to `n` queued requests (keeping them if `keep`); returns how many were popped.
+    pub fn pop_some(&mut self, n: usize) -> Result<usize, String> {
+        let mut k = 0;
+        while k < n {
+            let p = catch_unwind(AssertUnwindSafe(|| self.conn.pop_parsed_request()));
+            match p {
+                Ok(Some(r)) => {
+                    if self.keep {
+                        self.kept.push((self.steps.len(), r));
+                    }
+                    k += 1;
+                }
+                Ok(None) => break,
+                Err(p) => return Err(format!("panic in pop_parsed_request: {}", panic_msg(p))),
+            }
+        }
+        Ok(k)
     }
 }
 
